@@ -72,6 +72,8 @@ func C11(c *Ctx) {
 	c.R.Rule("C11-R3", "E7", "no other background work", 2)
 	c.R.Rule("C11-R4", "E3", "interruption mapped to Interrupted", 1)
 	c.R.Rule("C11-R5", "E5", "the caller's context reaches every execution", 5)
+	c.R.Rule("C11-R6", "E3", "the runtime's call depth is bounded before the program runs", 1)
+	c.R.Rule("C11-R7", "E3", "the call returns only after the watcher has ended", 1)
 	exec := c.fn("interpreters/ecmascript", "Interpreter", "Exec")
 	if exec == nil {
 		return
@@ -303,6 +305,9 @@ func C11(c *Ctx) {
 	c.R.Check(len(gos) == 1, "C11-R3", "Exec closure: exactly one goroutine", c.P.Pos(exec.Pos()), "one go statement (the watcher)", fmt.Sprintf("%d go statements in the closure of Exec", len(gos)))
 	c.R.Check(timers == 0, "C11-R3", "Exec closure: no timers", c.P.Pos(exec.Pos()), "no time.AfterFunc/NewTimer/NewTicker/After", "timers created")
 	okWatcher := false
+	var watchFn *ssa.Function
+	var watchGo *ssa.Go
+	var watchIntr ssa.Instruction
 	var watcherWhy = "no goroutine waits on the derived context and interrupts the runtime"
 	for _, g := range gos {
 		var wfn *ssa.Function
@@ -315,6 +320,7 @@ func C11(c *Ctx) {
 			continue
 		}
 		waits, interrupts, unconditional := false, false, false
+		var intr ssa.Instruction
 		pd := flow.NewPostDom(wfn)
 		ssau.Instrs(wfn, func(in ssa.Instruction) {
 			if u, ok := in.(*ssa.UnOp); ok && u.Op == token.ARROW {
@@ -327,6 +333,7 @@ func C11(c *Ctx) {
 			if ci, ok := in.(ssa.CallInstruction); ok && ssau.CalleeName(ci) == "(*"+gojaRuntime+".Runtime).Interrupt" {
 				if sameRuntime(ci.Common().Args[0]) {
 					interrupts = true
+					intr = in
 					if pd.PostDominates(in.Block(), wfn.Blocks[0]) {
 						unconditional = true
 					}
@@ -338,6 +345,7 @@ func C11(c *Ctx) {
 		dominates := ga != nil && flow.InstrDominates(ga, runCall.(ssa.Instruction))
 		if waits && interrupts && unconditional && noLoop && dominates {
 			okWatcher = true
+			watchFn, watchGo, watchIntr = wfn, g, intr
 		} else {
 			watcherWhy = fmt.Sprintf("watcher goroutine: waits on the derived context=%v, interrupts the running runtime=%v (unconditionally=%v), loop-free=%v, started on every path before the program runs=%v", waits, interrupts, unconditional, noLoop, dominates)
 		}
@@ -385,6 +393,153 @@ func C11(c *Ctx) {
 			}
 		}
 		c.R.Check(ok, "C11-R2", "Exec: cancel on every path to a return", c.pos(derive), "every return after the creation is preceded by cancel()", "a return can be reached without cancel(): the watcher goroutine and the derived context outlive the call")
+	}
+
+	// ---- R6 call depth.  goja nests one Go-level run per call from a built-in into script code (getter, forEach
+	// callback, apply, string conversion) and re-raises an interrupt at every such level at a cost proportional to
+	// the depth, so stopping a recursion of depth N costs N*N: without a bound on the depth a 200ms deadline is
+	// honoured a minute late.
+	{
+		bounded := false
+		for _, g := range pkgFns {
+			ssau.Instrs(g, func(in ssa.Instruction) {
+				ci, ok := in.(ssa.CallInstruction)
+				if !ok || ssau.CalleeName(ci) != "(*"+gojaRuntime+".Runtime).SetMaxCallStackSize" {
+					return
+				}
+				if _, isDefer := in.(*ssa.Defer); isDefer {
+					return
+				}
+				a := anchor(in, 0)
+				if a != nil && sameRuntime(ci.Common().Args[0]) && flow.InstrDominates(a, runCall.(ssa.Instruction)) {
+					bounded = true
+				}
+			})
+		}
+		c.R.Check(bounded, "C11-R6", "Exec: the call depth of the runtime is bounded", c.pos(runCall), "SetMaxCallStackSize on the runtime before the program runs", "the runtime runs with goja's default call depth (unbounded): recursion through a getter, a callback of a built-in, apply or a string conversion is unwound at a cost quadratic in the depth reached, so it stops seconds to minutes after the deadline")
+	}
+
+	// ---- R7 the watcher has ended when the call returns
+	if watchFn != nil {
+		type sig struct {
+			leaves []ssa.Value
+			wg     bool
+		}
+		var sigs []sig
+		wpd := flow.NewPostDom(watchFn)
+		ssau.Instrs(watchFn, func(in ssa.Instruction) {
+			var cm *ssa.CallCommon
+			_, deferred := in.(*ssa.Defer)
+			if ci, ok := in.(ssa.CallInstruction); ok {
+				if _, isGo := in.(*ssa.Go); isGo {
+					return
+				}
+				cm = ci.Common()
+			}
+			var x ssa.Value
+			wg := false
+			switch {
+			case cm != nil:
+				if b, isB := cm.Value.(*ssa.Builtin); isB && b.Name() == "close" {
+					x = cm.Args[0]
+				} else if cm.StaticCallee() != nil && cm.StaticCallee().String() == "(*sync.WaitGroup).Done" {
+					x, wg = cm.Args[0], true
+				}
+			default:
+				if sd, isSend := in.(*ssa.Send); isSend {
+					x = sd.Chan
+				}
+			}
+			if x == nil {
+				return
+			}
+			// at the very end: deferred from a point every exit has passed, or after the interrupt on every path
+			atEnd := false
+			if deferred {
+				atEnd = true
+				for _, b := range watchFn.Blocks {
+					if _, isRet := b.Instrs[len(b.Instrs)-1].(*ssa.Return); isRet && b != watchFn.Recover && !in.Block().Dominates(b) {
+						atEnd = false
+					}
+				}
+			} else if wpd.PostDominates(in.Block(), watchFn.Blocks[0]) && watchIntr != nil && flow.InstrDominates(watchIntr, in) {
+				atEnd = true
+			}
+			if atEnd {
+				sigs = append(sigs, sig{norm(x), wg})
+			}
+		})
+		same := func(a, b []ssa.Value) bool {
+			if len(a) == 0 || len(b) == 0 {
+				return false
+			}
+			for _, x := range a {
+				ok := false
+				for _, y := range b {
+					if x == y || sameVar(x, y) {
+						ok = true
+					}
+				}
+				if !ok {
+					return false
+				}
+			}
+			return true
+		}
+		waitBlocks := map[*ssa.BasicBlock]bool{}
+		for _, g := range pkgFns {
+			ssau.Instrs(g, func(in ssa.Instruction) {
+				var x ssa.Value
+				wg := false
+				switch u := in.(type) {
+				case *ssa.UnOp:
+					if u.Op == token.ARROW {
+						x = u.X
+					}
+				case *ssa.Call:
+					if sc := u.Common().StaticCallee(); sc != nil && sc.String() == "(*sync.WaitGroup).Wait" {
+						x, wg = u.Common().Args[0], true
+					}
+				}
+				if x == nil {
+					return
+				}
+				if in.Parent() == watchFn {
+					return
+				}
+				ls := norm(x)
+				for _, sg := range sigs {
+					if sg.wg == wg && same(ls, sg.leaves) {
+						if a := anchor(in, 0); a != nil {
+							if _, isMk := a.(*ssa.MakeClosure); !isMk {
+								waitBlocks[a.Block()] = true
+							}
+						}
+					}
+				}
+			})
+		}
+		ga := anchor(watchGo, 0)
+		ok := ga != nil && len(sigs) > 0 && len(waitBlocks) > 0
+		why := "the watcher does not signal its end (close, send or WaitGroup.Done as its last act), or Exec never waits for that signal"
+		if ok {
+			start := ga.Block()
+			for _, b := range frame.Blocks {
+				if _, isRet := b.Instrs[len(b.Instrs)-1].(*ssa.Return); !isRet {
+					continue
+				}
+				if start == b || b == frame.Recover || !flow.Reachable(start, b, nil) || waitBlocks[start] {
+					continue
+				}
+				if flow.Reachable(start, b, waitBlocks) && !waitBlocks[b] {
+					ok = false
+					why = "a return (" + c.pos(b.Instrs[len(b.Instrs)-1]) + ") can be reached without waiting for the watcher's end signal"
+				}
+			}
+		}
+		c.R.Check(ok, "C11-R7", "Exec: returns only after the watcher has ended", c.pos(watchGo), "the watcher signals as its last act and every return after its start first waits for the signal", why+": the goroutine started for the execution is still alive (and about to interrupt a finished runtime) when the call has returned")
+	} else {
+		c.R.Violate("C11-R7", "Exec: returns only after the watcher has ended", c.P.Pos(exec.Pos()), "no watcher goroutine identified")
 	}
 
 	// ---- R4
